@@ -1209,7 +1209,7 @@ class OrderedMultiDict(dict):
         """
         # E and F are throwback names to the dict() __doc__
         if E is self:
-            return
+            E = ()  # nothing to merge from E, keyword arguments still apply
         self_add = self.add
         if isinstance(E, OrderedMultiDict):
             for k in E:
@@ -1251,6 +1251,8 @@ class OrderedMultiDict(dict):
         self_add = self.add
         for k, v in iterator:
             self_add(k, v)
+        for k in F:
+            self_add(k, F[k])
 
     def __setitem__(self, k, v):
         if super().__contains__(k):
@@ -1276,7 +1278,8 @@ class OrderedMultiDict(dict):
         if isinstance(other, OrderedMultiDict):
             selfi = self.iteritems(multi=True)
             otheri = other.iteritems(multi=True)
-            zipped_items = zip_longest(selfi, otheri, fillvalue=(None, None))
+            zipped_items = zip_longest(selfi, otheri,
+                                       fillvalue=(_MISSING, _MISSING))
             for (selfk, selfv), (otherk, otherv) in zipped_items:
                 if selfk != otherk or selfv != otherv:
                     return False
@@ -1287,6 +1290,10 @@ class OrderedMultiDict(dict):
             return True
         elif hasattr(other, 'keys'):
             for selfk in self:
+                # membership first: looking a missing key up would make
+                # a defaultdict create (and match) it
+                if selfk not in other:
+                    return False
                 try:
                     if other[selfk] != self[selfk]:
                         return False
